@@ -300,6 +300,13 @@ def run_c18(c, tier, langs=("c", "cpp")):
         for cc in ccs:
             pc = subprocess.run(cc + [outp], capture_output=True, text=True)
             if pc.returncode != 0:
+                errs = [l for l in pc.stderr.splitlines() if " error: " in l]
+                site = "cpp:user-struct-holds-object-by-value"
+                if (lang == "cpp" and "struct UserHolder" in open(raw).read() and errs
+                        and all("after instantiation of" in l or "UserHolder" in l for l in errs) and site in known):
+                    # F14: every complaint is the specialisation-after-instantiation caused by the holder structure
+                    c.known(known[site]["id"], known[site]["what"])
+                    break
                 c.violation("%s %s rejects the post-processed header: %s" % (cc[0], cc[1], pc.stderr[-400:]), {"model": model, "header": outp})
                 break
         # (2) byte-identical on every run (fresh processes)
@@ -323,11 +330,11 @@ def run_c18(c, tier, langs=("c", "cpp")):
         # (3) declarations that do not belong to CGlue constructs survive unmodified and in order
         if model["foreign"]:
             if lang == "c":
-                names = ["FooVtbl", "Pt", "CSliceRef_u8", "UserKeeper", "BarRetTmp_x", "user_function_Container", "api_entry"]
+                names = ["FooVtbl", "Pt", "CSliceRef_u8", "UserKeeper", "BarRetTmp_x", "UserHolder", "user_function_Container", "api_entry"]
                 a = foreign_decls(open(raw).read(), names)
                 b = foreign_decls(first.decode(), names)
             else:
-                names = ["FooVtbl", "Pt", "BarRetTmp_x", "user_function_Container"]
+                names = ["FooVtbl", "Pt", "BarRetTmp_x", "UserHolder", "user_function_Container"]
                 a = foreign_decls_cpp(open(raw).read(), names)
                 b = foreign_decls_cpp(first.decode(), names)
             if a != b or not a:
